@@ -52,6 +52,12 @@ type AcceptCase struct {
 	ClosePad   int             `json:"closePad"`
 	Salt       uint64          `json:"salt"`
 	SlotOffset int             `json:"slotOffset,omitempty"` // -1,0,+1: key derived for the adjacent slot is NOT used here (C08's subject)
+	// Carry > 0 (TCP): the reference chooses its first nonce so that the last
+	// eight bytes are within 1024 increments of ff..ff (bytes 16..19 = ff and a
+	// user hint >= 0xfffffc00, found by searching bytes 12..15) and sends that
+	// many one-byte data segments first: the per-encryption increment of the
+	// 24-byte big-endian nonce has to carry into byte 15 on the way
+	Carry int `json:"carry,omitempty"`
 }
 
 func genMaskBits(t *rapid.T, ones int) []int {
@@ -128,6 +134,9 @@ func genAccept(t *rapid.T) AcceptCase {
 		}
 		c.Segs = append(c.Segs, s)
 	}
+	if !c.UDP && rapid.IntRange(0, 11).Draw(t, "carry") == 0 {
+		c.Carry = 530
+	}
 	nd := rapid.IntRange(0, 3).Draw(t, "nDown")
 	for i := 0; i < nd; i++ {
 		c.Down = append(c.Down, rapid.SampledFrom([]int{1, 10, 1024, 1400, 5000}).Draw(t, "down"))
@@ -158,6 +167,28 @@ func propAccept(c AcceptCase) (o pbt.Outcome) {
 	keys := refproto.KeysAround(hp, now.Unix())
 	nonce := e2e.UniqueNonce(c.Nonce)
 	refproto.SetUserHint(u.Name, nonce)
+	if c.Carry > 0 && !c.UDP {
+		nonce[16], nonce[17], nonce[18], nonce[19] = 0xff, 0xff, 0xff, 0xff
+		found := false
+		for x := uint32(0); x < 1<<27; x++ {
+			nonce[12], nonce[13], nonce[14], nonce[15] = byte(x>>24), byte(x>>16), byte(x>>8), byte(x)
+			if h := refproto.UserHint(u.Name, nonce); h[0] == 0xff && h[1] == 0xff && h[2] >= 0xfc {
+				copy(nonce[20:], h)
+				found = true
+				break
+			}
+		}
+		if !found {
+			o.Inconclusive = "no nonce with a high user hint found"
+			return
+		}
+		tiny := make([]RefSeg, c.Carry)
+		for i := range tiny {
+			tiny[i] = RefSeg{Len: 1, Window: 4096}
+		}
+		c.Segs = append(tiny, c.Segs...)
+		o.Label("nonceCarry")
+	}
 	minute := func() uint32 { return uint32(time.Now().Unix() / 60) }
 
 	// what the reference client sends as application bytes
